@@ -260,7 +260,10 @@ def _expr_rv(facts, body, rv, depth, memo):
         if rv['op'] == 'PtrMetadata': return ('len', expr_of(facts, body, rv['a'], depth, memo))
         return ('un', rv['op'], expr_of(facts, body, rv['a'], depth, memo))
     if k == 'cast':
-        if CAST_KINDS: return ('cast', rv['to']['s'], expr_of(facts, body, rv['a'], depth, memo), rv.get('k', ''))
+        if CAST_KINDS:
+            a = rv['a']
+            src = a['p'].get('ty') if a.get('o') in ('copy', 'move') else (a.get('ty', {}).get('s') if isinstance(a.get('ty'), dict) else None)
+            return ('cast', rv['to']['s'], expr_of(facts, body, rv['a'], depth, memo), rv.get('k', ''), src)
         return ('cast', rv['to']['s'], expr_of(facts, body, rv['a'], depth, memo))
     if k in ('ref', 'rawptr'): return expr_of_place(facts, body, rv['p'], depth, memo)
     if k == 'discr': return ('discr', expr_of_place(facts, body, rv['p'], depth, memo))
